@@ -25,21 +25,29 @@ Name3 == << "vpn", "example", "org" >>
 Name5 == << "a", "b", "c", "example", "org" >>
 
 Cfg(id, main, allowed, ping, quic) == [id |-> id, main |-> main, allowed |-> allowed, ping |-> ping, quic |-> quic,
-                                        speed |-> {}, rproxy |-> {}]
-Services(c, speed, rproxy) == [c EXCEPT !.speed = speed, !.rproxy = rproxy]
+                                        speed |-> {}, rproxy |-> {}, origin |-> "none", speedtest |-> FALSE]
+\* hosts of the speedtest / reverse-proxy channels, the reverse proxy's origin ("up" | "down"), speedtest_enable
+Services(c, speed, rproxy, origin, st) == [c EXCEPT !.speed = speed, !.rproxy = rproxy, !.origin = origin, !.speedtest = st]
 
 QuickCfgs ==
     { Cfg("single",       { Name1 }, {}, { << "pinger" >> }, FALSE),
       Cfg("multi",        { Name3 }, {}, { << "ping", "example", "org" >> }, FALSE),
       Services(Cfg("multiAllowed", { Name3 }, { << "cdn", "front", "net" >>, << "front" >> }, { << "ping", "example", "org" >> }, FALSE),
-               { << "speed", "example", "org" >> }, { << "www", "example", "org" >> }),
+               { << "speed", "example", "org" >> }, { << "www", "example", "org" >> }, "up", FALSE),
       Cfg("multiQuic",    { Name3 }, {}, { << "ping", "example", "org" >> }, TRUE) }
+
+\* the configurations of the routed slice: every service reachable by path from the tunnel host, over
+\* TCP and QUIC; the reverse proxy's origin answers / refuses connections
+SvcCfg(id, origin) == Services(Cfg(id, { Name3 }, {}, { << "ping", "example", "org" >> }, TRUE),
+                               { << "speed", "example", "org" >> }, { << "www", "example", "org" >> }, origin, TRUE)
+SvcCfgs == { SvcCfg("svcUp", "up"), SvcCfg("svcDown", "down") }
 
 MoreCfgs ==
     { Cfg("two",  { Name1, Name3 }, { << "alias" >> }, { << "pinger" >> }, FALSE),
       Cfg("deep", { Name5 }, { << "cdn", "front", "net" >> }, { << "ping", "org" >> }, FALSE) }
 
-MCCfgs == TLCEval(IF Tier = "quick" THEN QuickCfgs ELSE QuickCfgs \cup MoreCfgs)
+ConnCfgs == TLCEval(IF Tier = "quick" THEN QuickCfgs ELSE QuickCfgs \cup MoreCfgs)
+MCCfgs == TLCEval(ConnCfgs \cup SvcCfgs)
 
 Unknown == << "nosuch", "invalid" >>
 NoSni   == << >>
@@ -56,7 +64,8 @@ F(name, case, val, cls) == [name |-> name, case |-> case, val |-> val, cls |-> c
 NoHs == << >>
 
 S(cfg, sni, alpn, src, hello, sniAuth, kind, hs) ==
-    [cfg |-> cfg, sni |-> sni, alpn |-> alpn, src |-> src, hello |-> hello, sniAuth |-> sniAuth, kind |-> kind, hs |-> hs]
+    [cfg |-> cfg, sni |-> sni, alpn |-> alpn, src |-> src, hello |-> hello, sniAuth |-> sniAuth, kind |-> kind, hs |-> hs, via |-> "tcp"]
+Quic(s) == [s EXCEPT !.via = "quic", !.alpn = << "h3" >>]
 
 SniAuths(c, n) == IF n \in CredsNames(c) THEN { "pass", "reject" } ELSE { "pass" }
 
@@ -64,14 +73,14 @@ SniAuths(c, n) == IF n \in CredsNames(c) THEN { "pass", "reject" } ELSE { "pass"
 ConnCompletedOk ==
     UNION { { S(c.id, n, a, src, "complete", sa, k, NoHs) :
                 a \in Alpns, src \in { "ok", "denied" }, sa \in SniAuths(c, n), k \in { "none", "check" } }
-            : << c, n >> \in UNION { { << cc, nn >> : nn \in SniNames(cc) } : cc \in MCCfgs } }
+            : << c, n >> \in UNION { { << cc, nn >> : nn \in SniNames(cc) } : cc \in ConnCfgs } }
 
 \* a client that never says anything has no name and no ALPN to vary
 ConnBrokenOk ==
     UNION { { S(c.id, n, a, "ok", h, "pass", "none", NoHs) :
                 a \in AlpnsShort, h \in { "stall", "abort", "junk", "partial" } }
-            : << c, n >> \in UNION { { << cc, nn >> : nn \in SniNames(cc) } : cc \in MCCfgs } }
-    \cup { S(c.id, NoSni, << >>, "ok", "silent", "pass", "none", NoHs) : c \in MCCfgs }
+            : << c, n >> \in UNION { { << cc, nn >> : nn \in SniNames(cc) } : cc \in ConnCfgs } }
+    \cup { S(c.id, NoSni, << >>, "ok", "silent", "pass", "none", NoHs) : c \in ConnCfgs }
 
 \* ---- request slice
 PaMixes == { << >>, << "valid" >>, << "wrong" >>, << "other" >>, << "valid", "valid" >>, << "valid", "wrong" >>,
@@ -114,18 +123,48 @@ Requests ==
 Specials ==
     UNION { { S(c.id, n, a, "ok", "complete", "pass", k, PaFields(pa, case) \o AzFields(ac[1], case) \o CkFields(ac[2], case) \o PingField(x)) :
                 k \in { "getAbs" }, pa \in { << >>, << "valid" >>, << "wrong", "wrong" >> }, ac \in AzCk, case \in Cases(a), x \in { n \notin c.ping } }
-            : << c, n, a >> \in { << x[1], x[2], aa >> : x \in CfgNames(SpecialNames, MCCfgs), aa \in { << "http/1.1" >>, << "h2" >> } } }
+            : << c, n, a >> \in { << x[1], x[2], aa >> : x \in CfgNames(SpecialNames, ConnCfgs), aa \in { << "http/1.1" >>, << "h2" >> } } }
     \cup
     \* a request without an authority: what the hosts of the other channels are asked (and an error path of the tunnel channel)
     UNION { { S(c.id, n, a, "ok", "complete", "pass", "getOrigin", PaFields(pa, case) \o AzFields(ac[1], case) \o CkFields(ac[2], case)) :
                 pa \in { << >>, << "valid" >>, << "valid", "wrong" >> }, ac \in AzCk, case \in Cases(a) }
-            : << c, n, a >> \in { << x[1], x[2], aa >> : x \in CfgNames(ServiceNames, MCCfgs), aa \in { << "http/1.1" >>, << "h2" >> } } }
+            : << c, n, a >> \in { << x[1], x[2], aa >> : x \in CfgNames(ServiceNames, ConnCfgs), aa \in { << "http/1.1" >>, << "h2" >> } } }
     \cup
     UNION { { S(c.id, n, << "http/1.1" >>, "ok", "complete", "pass", "badSyntax", PaFields(pa, case) \o AzFields(ac[1], case) \o CkFields(ac[2], case)) :
                 pa \in { << "valid" >>, << "wrong", "valid" >> }, ac \in AzCk, case \in { "canon", "mixed" } }
             : << c, n >> \in CfgNames(ReqNames, ReqCfgs) }
 
-MCScenarios == TLCEval(ConnCompletedOk \cup ConnBrokenOk \cup Requests \cup Specials)
+\* ---- routed slice: requests that leave the tunnel channel by their path (reverse proxy's path mask,
+\* /speed/ paths, ping marker) or arrive on the hosts of those channels, with the service working and
+\* failing (origin refusing connections / closing mid-response, upload cut short, no speed test),
+\* on connections with and without a credentials label, over HTTP/1.1 (with / without Upgrade),
+\* HTTP/2 and HTTP/3
+UpgradeField(u) == IF u THEN << F("upgrade", "lower", "websocket", "-") >> ELSE << >>
+RoutedKinds == RpKinds \cup SpeedKinds \cup { "getOrigin" }
+RoutedPa   == { << >>, << "valid", "wrong" >> }
+RoutedAzCk == IF Tier = "quick" THEN { << 0, "none" >>, << 2, "fields" >> } ELSE { << 0, "none" >>, << 2, "fields" >>, << 1, "pairs" >> }
+RoutedNames(c) == c.main \cup CredsNames(c) \cup c.rproxy \cup c.speed
+RoutedTcp ==
+    UNION { { S(c.id, n, a, "ok", "complete", "pass", k,
+                PaFields(pa, case) \o AzFields(ac[1], case) \o CkFields(ac[2], case) \o UpgradeField(u)) :
+                k \in RoutedKinds, pa \in RoutedPa, ac \in RoutedAzCk, case \in Cases(a),
+                u \in (IF a = << "h2" >> THEN { FALSE } ELSE BOOLEAN) }
+            : << c, n, a >> \in { << x[1], x[2], aa >> : x \in CfgNames(RoutedNames, SvcCfgs), aa \in { << "http/1.1" >>, << "h2" >> } } }
+\* the ping marker on the tunnel host of these configurations
+RoutedPing ==
+    UNION { { S(c.id, n, a, "ok", "complete", "pass", "getAbs", PaFields(pa, case) \o AzFields(ac[1], case) \o CkFields(ac[2], case) \o PingField(TRUE)) :
+                pa \in RoutedPa, ac \in RoutedAzCk, case \in Cases(a) }
+            : << c, n, a >> \in { << x[1], x[2], aa >> : x \in CfgNames(ReqNames, SvcCfgs), aa \in { << "http/1.1" >>, << "h2" >> } } }
+\* the HTTP/3 variants: the same requests over QUIC (field names in lower case, as over HTTP/2)
+Routed == RoutedTcp \cup RoutedPing \cup { Quic(s) : s \in { r \in RoutedTcp \cup RoutedPing : r.alpn = << "h2" >> } }
+
+\* a few connections over QUIC that carry no request or the plain kinds (the connection statements of
+\* on_new_quic_connection with every name)
+QuicPlain ==
+    UNION { { Quic(S(c.id, n, << "h3" >>, "ok", "complete", sa, k, NoHs)) : sa \in SniAuths(c, n), k \in { "none", "check", "connectRefused" } }
+            : << c, n >> \in CfgNames(RoutedNames, SvcCfgs) }
+
+MCScenarios == TLCEval(ConnCompletedOk \cup ConnBrokenOk \cup Requests \cup Specials \cup Routed \cup QuicPlain)
 
 ASSUME \A c \in MCCfgs : PrintT(<< "CFG", ToJson(c) >>)
 
